@@ -362,8 +362,8 @@ def degenerate_cases():
 
 
 def generate(rng: random.Random, tier: str):
-    n_scales = 2600 if tier == "quick" else 60000
-    n_perm = 50 if tier == "quick" else 1500
+    n_scales = 8000 if tier == "quick" else 150000
+    n_perm = 120 if tier == "quick" else 3000
     out = degenerate_cases()
     for i in range(n_scales):
         out += cases_for_scale(rng, rand_ins(rng))
@@ -457,5 +457,14 @@ PROP = Prop(
         "claim domain (Appendix A): calc everywhere; bracket index / marginal rate for bases >= the first threshold (and not equal to a "
         "positive first threshold); linear average on [t_0, t_last); conventions outside are compared but not binding",
     ],
+    level_text=("Theorems (all bracket lists, all bases, every eps >= 0 and factor with factor + eps > 0; eps = 0, factor 1 is the textbook "
+                "corollary): calc of a marginal-rate scale = sum of rate x length of the bracket part below the base, with factor and "
+                "rounding (C08_marginal_rate_def*), closed form on the containing bracket and zero below the first threshold; the reported "
+                "index k satisfies tau_k <= b < tau_k+1 (C08_bracket_contains*, lattice-gap and textbook corollaries), the containing bracket "
+                "is the one reported with its rate (C08_bracket_reported), the reported rate is the slope of calc (C08_marginal_slope); "
+                "marginal-amount, single-amount (left/right, below first) and linear-average definitions; add_bracket is order independent "
+                "and yields the sorted scale with summed rates (C08_insertion_order, C08_built_sorted, C08_build_def); vector = pointwise. "
+                "Carried by the correspondence only: IEEE rounding (eps-snap), BLAS summation order, numpy/bisect primitives; conventions outside "
+                "the claim domain (index below the first threshold, linear average at/after the last threshold) are compared, not binding."),
     exhaustive_note="thorough: every insertion sequence of 1..3 brackets over thresholds {-2,0,1,3} x rates {-1/16,1/4,1}, all ops, bases -3..4 step 1/4",
 )
